@@ -29,3 +29,6 @@ claim("C06", "model_checking", "bounded-exhaustive enumeration of stored-field s
 claim("C07", "model_checking", "bounded-exhaustive enumeration of doc-value shapes, field lists and visiting orders on the real reader vs model",
       "DV-S batches (built, self-merged): every ordered subset of {a,b,d,unknown} x every visiting order <=3 with one reader; DV-C families crossing the 1024-document chunk boundary (8 placement patterns, built/loaded/merged with renumbering): every order <=3 (thorough <=4) over the documents of interest; inconsistent per-segment flags with a per-source oracle.",
       TRUST, "DESIGN.md 5 C07", E1 + " / " + E2)
+claim("C05", "model_checking", "explicit-state BFS to a fixpoint over the real PostingsIterator's private state, every transition compared with a reference model",
+      "For every postings list of POST(N) x chunk modes (general and 1-hit), every exclusion subset (+ foreign doc) or ReplaceActual subset and all 8 flag combinations, the state graph of the real iterator under Next/Advance(d) (all non-decreasing targets) is explored to a fixpoint: all call sequences of any length, not a depth cut. Each transition's document, frequency, norm and locations are compared with the model; nil stays nil; Count() is checked. The state abstraction is cross-validated against path mode.",
+      TRUST + " The iterator state dump (verif hook) lists every field a method reads and refuses to run if the struct gains a field.", "DESIGN.md 5 C05", E2)
